@@ -1,13 +1,16 @@
 #!/usr/bin/env bash
 # Builds the whole framework offline from files on disk (run once after a fresh restore).
-set -e
+# Every check is also (re)built by ./check itself, so a package that fails here only costs time later.
 ROOT="$(cd "$(dirname "${BASH_SOURCE[0]}")" && pwd)"
 export CARGO_NET_OFFLINE=true
 export RUSTFLAGS="--cfg p3_recursion_verif -Awarnings"
 export CARGO_TARGET_DIR="$ROOT/target"
-cd "$ROOT/harness"
-cargo build --release --offline --workspace
-cargo build --offline -p c19            # C19 compares the dev and release profiles
-cd "$ROOT/harness-c18"
-CARGO_TARGET_DIR="$ROOT/target/c18ws" cargo build --release --offline -p c18
-echo "setup done"
+cd "$ROOT/harness" || exit 1
+fail=0
+for p in $(python3 -c "import json;print(' '.join(sorted(c['property_id'].lower() for c in json.load(open('$ROOT/MANIFEST.json'))['checks'] if c['property_id']!='C18')))"); do
+  cargo build --release --offline -q -p "$p" || { echo "setup: build of $p failed"; fail=1; }
+done
+cargo build --offline -q -p c19 || { echo "setup: dev build of c19 failed"; fail=1; }   # C19 compares dev and release
+cd "$ROOT/harness-c18" && CARGO_TARGET_DIR="$ROOT/target/c18ws" cargo build --release --offline -q -p c18 || { echo "setup: build of c18 failed"; fail=1; }
+echo "setup done (fail=$fail)"
+exit $fail
